@@ -843,12 +843,14 @@ class C17(Plan):
             j += simple_jobs("dbg", ["serde", "seed=%d" % seed, "n=40"], p)
             j += simple_jobs("rel", ["serde", "seed=%d" % (seed + 1), "n=40"], p)
             j += simple_jobs("asan", ["serde", "seed=%d" % (seed + 2), "n=10"], p)
-            j += [Job("miri", ["serde", "seed=%d" % (seed * 10 + k), "n=1"], san_props=p, crash_props=p, miri_seed=seed * 4096 + k, tb=(k == 1), timeout=1800) for k in range(2)]
+            j += [Job("miri", ["serde", "seed=%d" % (seed * 10 + k), "n=1", "part=%s" % ("ser", "de")[k % 2]], san_props=p, crash_props=p, miri_seed=seed * 4096 + k,
+                      tb=(k >= 2), timeout=1800) for k in range(4)]
         else:
             for k, m in enumerate(("dbg", "rel", "off")):
                 j += [Job(m, ["serde", "seed=%d" % (seed * 1000 + k * 50 + q), "n=2000"], san_props=p, crash_props=p) for q in range(8)]
             j += simple_jobs("asan", ["serde", "seed=%d" % (seed + 2), "n=400"], p)
-            j += [Job("miri", ["serde", "seed=%d" % (seed * 10 + k), "n=2"], san_props=p, crash_props=p, miri_seed=seed * 4096 + k, tb=(k % 3 == 2), timeout=3000) for k in range(16)]
+            j += [Job("miri", ["serde", "seed=%d" % (seed * 10 + k), "n=2", "part=%s" % ("ser", "de")[k % 2]], san_props=p, crash_props=p, miri_seed=seed * 4096 + k,
+                      tb=(k % 4 >= 2), timeout=3000) for k in range(32)]
         return j
 
     def coverage(self, counts, sets, samples, other, results):
